@@ -5,6 +5,15 @@ open Lean Jinns.Proto Jinns.Domain Jinns.Minibatch
 
 namespace Jinns.Driver
 
+/-- non-finite floats cross the protocol as the strings "nan", "inf", "-inf": the innermost object key
+    under which the first one occurs, if any (scanned before any exact-rational parsing) -/
+private partial def nonFiniteKey (j : Json) (key : String) : Option String :=
+  match j with
+  | .str s => if s == "nan" || s == "inf" || s == "-inf" then some key else none
+  | .arr a => a.toList.findSome? (nonFiniteKey · key)
+  | .obj kvs => kvs.toList.findSome? fun kv => nonFiniteKey kv.2 kv.1
+  | _ => none
+
 private def cube (j : Json) : Except String (List (List (List Rat))) := do
   let a ← j.getArr?
   a.toList.mapM ratMat
@@ -285,8 +294,17 @@ private def handleNonStatio (j : Json) : Except String Json := do
           s.omega s.border2 s.border1 times seen)
         pure (result none ms acc)
 
+private def arrayName08 (key : String) : String :=
+  match key with
+  | "times" => "time-store" | "omega" => "omega-store" | "border1" => "border-store"
+  | "border2" => "border-store" | "t" => "time-batch" | "x" => "inside-batch" | "dx" => "border-batch"
+  | "tx" => "interior-batch" | "tdx" => "border-batch" | k => k
+
 def handleC08 (j : Json) : Except String Json := do
   let kind ← getStr j "kind"
+  if let some key := nonFiniteKey j "" then
+    let acc : Acc := { clause := Jinns.Holds.c08NotFinite (arrayName08 key) }
+    return (result none Json.null acc).mergeObj (Json.mkObj [("nonfinite", Json.bool true)])
   if kind == "ode" then handleOde j
   else if kind == "statio" then handleStatio j
   else if kind == "nonstatio" then handleNonStatio j
